@@ -111,3 +111,5 @@ func (c01) RunKnown(id string) (bool, string, error) {
 	}
 	return false, "", nil
 }
+
+func (c01) Finalize(a *fw.Agg, t fw.Tier) { keywordCoverage(a, false) }
